@@ -21,6 +21,53 @@ from hsverif.family import Family, merge_stats, run_family
 IMPORTS = "From HS Require Import Base.Prelude C12.Model."
 LEVEL = "proof"
 
+import threading
+
+_IMPL_LOCK = threading.RLock()
+
+
+def locked(fn):
+    """Implementation drivers seed and use the global `random` module: run one at a time."""
+    import functools
+
+    @functools.wraps(fn)
+    def w(c):
+        with _IMPL_LOCK:
+            return fn(c)
+    return w
+
+
+def run_sim_bounded(sim, max_events=100000, wall_s=20.0):
+    """hsverif.util.run_bounded, usable from worker threads too (the wall-clock limit needs
+    signals and is only armed in the main thread; the event-count watchdog always is)."""
+    from hsverif.util import FrozenClock, run_bounded
+    if threading.current_thread() is threading.main_thread():
+        return run_bounded(sim, max_events=max_events, wall_s=wall_s)
+    heap = sim._event_heap
+    orig_pop = heap.pop
+    st = {"t": None, "same": 0, "total": 0}
+
+    def pop():
+        ev = orig_pop()
+        st["total"] += 1
+        if ev.time == st["t"]:
+            st["same"] += 1
+            if st["same"] > 5000:
+                raise FrozenClock("at t=")
+        else:
+            st["t"], st["same"] = ev.time, 0
+        if st["total"] > max_events:
+            raise FrozenClock("total")
+        return ev
+
+    heap.pop = pop
+    try:
+        return sim.run(), "ok"
+    except FrozenClock as e:
+        return None, "frozen-clock" if "at t=" in str(e) else "too-many-events"
+    finally:
+        heap.pop = orig_pop
+
 LOST_S = 10_000.0
 
 
@@ -95,6 +142,7 @@ def in_event(ev):
     raise ValueError(f"unexpected input event {t}")
 
 
+@locked
 def run_paxos(c):
     import random
 
@@ -162,8 +210,7 @@ def run_paxos(c):
             net.heal_partition()
         sim.schedule(Event.once(time=Instant.from_seconds(t / 1000.0), event_type=f"Cut{k}", fn=cut))
         sim.schedule(Event.once(time=Instant.from_seconds(heal / 1000.0), event_type=f"Heal{k}", fn=heal_fn))
-    from hsverif.util import run_bounded
-    _, verdict = run_bounded(sim, max_events=100000, wall_s=20.0)
+    _, verdict = run_sim_bounded(sim, max_events=100000, wall_s=20.0)
     final = [snapshot(nd) for nd in nodes]
     return dict(trace=trace, final=final, verdict=verdict, sent=script["i"])
 
@@ -245,11 +292,11 @@ def gen_paxos(rng):
 
 # --------------------------------------------------------------------------- encoding (Paxos)
 def _ov(v):
-    return None if v is None else SomeV(v)
+    return Raw("NZ") if v is None else Ctor("SZ", v)
 
 
 def _ob(b):
-    return None if b is None else SomeV((b[0], b[1]))
+    return Raw("NB") if b is None else Ctor("SB", b[0], b[1])
 
 
 def enc_in(i):
@@ -294,17 +341,17 @@ def enc_out(o):
 
 def enc_state(st):
     return Ctor("mkO", _ob(st["promised"]), _ob(st["acc_b"]), _ov(st["acc_v"]), st["cur"],
-                [(k, f) for k, f in st["futs"]],
-                [(k, [(r[0], _ob(r[1]), _ov(r[2])) for r in rs]) for k, rs in st["p1"]],
-                [(k, v) for k, v in st["p2"]],
-                [(k, _ov(v)) for k, v in st["pvals"]],
+                [Ctor("ZZ", k, f) for k, f in st["futs"]],
+                [Ctor("P1E", k, [Ctor("RSP", r[0], _ob(r[1]), _ov(r[2])) for r in rs]) for k, rs in st["p1"]],
+                [Ctor("ZZ", k, v) for k, v in st["p2"]],
+                [Ctor("ZOZ", k, _ov(v)) for k, v in st["pvals"]],
                 bool(st["decided"]), _ov(st["dec_v"]),
-                [(f, _ov(v)) for f, v in st["resolved"]])
+                [Ctor("ZOZ", f, _ov(v)) for f, v in st["resolved"]])
 
 
 def encode_paxos(c, obs):
-    steps = [(s["node"], enc_in(s["inp"]), [enc_out(o) for o in s["outs"]], enc_state(s["st"])) for s in obs["trace"]]
-    return term((c["n"], steps))
+    steps = [Ctor("RS", s["node"], enc_in(s["inp"]), [enc_out(o) for o in s["outs"]], enc_state(s["st"])) for s in obs["trace"]]
+    return "(" + term(c["n"]) + ", " + term(steps) + ")"
 
 
 # --------------------------------------------------------------------------- distributed lock
@@ -338,6 +385,7 @@ def gen_lock(rng):
                 schedule_expiry=rng.random() < 0.8)
 
 
+@locked
 def run_lock(c):
     from happysimulator.components.consensus.distributed_lock import DistributedLock
     from happysimulator.core.event import Event
@@ -427,8 +475,7 @@ def run_lock(c):
         return pending()
     for k in range(0, (c["ops"][-1][0] if c["ops"] else 0) + 50):
         sim.schedule(Event.once(time=Instant.from_seconds((k + 0.5) / 1000.0), event_type="poll", fn=poll))
-    from hsverif.util import run_bounded
-    _, verdict = run_bounded(sim, wall_s=20.0)
+    _, verdict = run_sim_bounded(sim, wall_s=20.0)
     return dict(trace=trace, verdict=verdict)
 
 
@@ -490,6 +537,332 @@ def encode_lock(c, obs):
     return term((c["maxw"], steps))
 
 
+# --------------------------------------------------------------------------- Multi-Paxos / Flexible Paxos
+def mnm(i):
+    return f"m{i}"
+
+
+def gen_multi(rng):
+    n = rng.choice([3, 3, 4, 5])
+    flex = rng.random() < 0.5
+    if flex:
+        pairs = [(a, b) for a in range(1, n + 1) for b in range(1, n + 1) if a + b > n]
+        q1, q2 = rng.choice(pairs)
+    else:
+        q1 = q2 = n // 2 + 1
+    mode = rng.choice(["stable", "stable", "takeover", "takeover", "chaos"])
+    fault_free = mode == "stable"
+    ops = []
+    leader = rng.randrange(n)
+    ops.append([1, "start", leader, 0])
+    cmd = 1
+    t = 1
+    for _ in range(rng.randint(1, 6)):
+        t += rng.choice([0, 1, 5, 20, 60])
+        k = rng.random()
+        if mode != "stable" and k < 0.3:
+            ops.append([t, "start", rng.randrange(n), 0])
+        else:
+            who = leader if (mode == "stable" or rng.random() < 0.6) else rng.randrange(n)
+            ops.append([t, "submit", who, cmd])
+            cmd += 1
+    if mode == "stable" and rng.random() < 0.5:
+        # a command queued before the leader is established
+        ops.insert(0, [0, "submit", leader, cmd])
+    pal = rng.choice([[1, 2, 3], [1, 1, 2, 40], [1, 3, 8, 30, 90]])
+    delays = [(-1 if (mode == "chaos" and rng.random() < 0.12) else rng.choice(pal)) for _ in range(rng.randint(5, 40))]
+    parts = []
+    if mode == "chaos" and rng.random() < 0.5:
+        members = list(range(n))
+        rng.shuffle(members)
+        k = rng.randint(1, n - 1)
+        tt = rng.choice([2, 10, 40])
+        parts.append([tt, sorted(members[:k]), sorted(members[k:]), tt + rng.choice([10, 80])])
+    return dict(n=n, flex=flex, q1=q1, q2=q2, hb_ms=rng.choice([25, 60, 150]), ops=ops, delays=delays, parts=parts,
+                end_ms=rng.choice([200, 400]), fault_free=fault_free, mode=mode)
+
+
+def msnap(node, futs):
+    fid = {id(f): i for i, f in enumerate(futs)}
+    return dict(
+        log=[[e.term, e.command["value"]] for e in node.log.entries_after(0)], commit=node.log.commit_index,
+        applied=node._last_applied, bal=[node._current_ballot.number, int(node._current_ballot.node_id[1:])],
+        leader=None if node.leader is None else int(node.leader[1:]), isl=node.is_leader,
+        acks=[[k, v] for k, v in node._slot_acks.items()],
+        pend=[[c["value"], fid[id(f)]] for c, f in node._pending_commands],
+        p1=[[k, len(v)] for k, v in node._phase1_responses.items()],
+        futs=[[k, fid[id(f)]] for k, f in node._slot_futures.items()],
+        res=[[i, f.value[0]] for i, f in enumerate(futs) if f.is_resolved],
+        app=list(node._c12_applied), committed=node.stats.commands_committed)
+
+
+def m_out(ev, prefix):
+    md = ev.context.get("metadata", {})
+    t = ev.event_type[len(prefix):]
+    if md.get("self_heartbeat"):
+        return ["Tick", md["ballot_number"], int(md["ballot_node"][1:]), md["commit_index"]]
+    d = int(md["destination"][1:])
+    if t == "Prepare":
+        return ["Prepare", d, md["ballot_number"], int(md["ballot_node"][1:])]
+    if t == "Promise":
+        return ["Promise", d, md["ballot_number"], int(md["ballot_node"][1:]), int(md["from"][1:])]
+    if t == "Nack":
+        return ["Nack", d, md["ballot_number"], int(md["ballot_node"][1:])]
+    if t == "Accept":
+        return ["Accept", d, md["ballot_number"], int(md["ballot_node"][1:]), md["slot"], md["command"]["value"], md["commit_index"]]
+    if t == "Accepted":
+        return ["Accepted", d, md["ballot_number"], md["slot"], int(md["from"][1:])]
+    if t == "Heartbeat":
+        return ["Heartbeat", d, md["ballot_number"], int(md["ballot_node"][1:]), md["commit_index"]]
+    raise ValueError(f"unexpected output {ev.event_type}")
+
+
+def m_in(ev, prefix):
+    md = ev.context.get("metadata", {})
+    t = ev.event_type[len(prefix):]
+    src = int(md["source"][1:]) if "source" in md else -1
+    if t == "Prepare":
+        return ["Prepare", src, md["ballot_number"], int(md["ballot_node"][1:])]
+    if t == "Promise":
+        return ["Promise", md["ballot_number"]]
+    if t == "Nack":
+        return ["Nack", md["ballot_number"], int(md["ballot_node"][1:])]
+    if t == "Accept":
+        return ["Accept", src, md["ballot_number"], int(md["ballot_node"][1:]), md["slot"], md["command"]["value"], md["commit_index"]]
+    if t == "Accepted":
+        return ["Accepted", md["slot"]]
+    if t == "Heartbeat":
+        return ["Heartbeat", md["ballot_number"], int(md["ballot_node"][1:]), md["commit_index"], bool(md.get("self_heartbeat"))]
+    raise ValueError(f"unexpected input {ev.event_type}")
+
+
+@locked
+def run_multi(c):
+    import random
+
+    from happysimulator.components.consensus.flexible_paxos import FlexiblePaxosNode
+    from happysimulator.components.consensus.multi_paxos import MultiPaxosNode
+    from happysimulator.components.consensus.raft_state_machine import KVStateMachine
+    from happysimulator.components.network.link import NetworkLink
+    from happysimulator.components.network.network import Network
+    from happysimulator.core.event import Event
+    from happysimulator.core.simulation import Simulation
+    from happysimulator.core.temporal import Duration, Instant
+    from happysimulator.distributions.latency_distribution import LatencyDistribution
+
+    random.seed(7)
+    trace = []
+    script = {"i": 0}
+    delays = c["delays"] or [1]
+    base = FlexiblePaxosNode if c["flex"] else MultiPaxosNode
+    prefix = "FlexPaxos" if c["flex"] else "MultiPaxos"
+
+    class Scripted(LatencyDistribution):
+        def __init__(self):
+            super().__init__(0.001)
+
+        def get_latency(self, current_time):
+            d = delays[script["i"] % len(delays)]
+            script["i"] += 1
+            return Duration.from_seconds(LOST_S) if d < 0 else Duration(int(d) * 1_000_000)
+
+    class SM(KVStateMachine):
+        def __init__(self, owner):
+            super().__init__()
+            self.owner = owner
+
+        def apply(self, command):
+            nd = self.owner[0]
+            # index of the entry being applied = _last_applied is updated right after apply(); record (order, command)
+            nd._c12_applied.append([len(nd._c12_applied) + 1, command["value"]])
+            return super().apply(command)
+
+    class RecNode(base):
+        def handle_event(self, event):
+            inp = m_in(event, prefix)
+            res = super().handle_event(event)
+            outs = [m_out(e, prefix) for e in (res or [])]
+            trace.append(dict(node=int(self.name[1:]), inp=inp, outs=outs, st=msnap(self, self._c12_futs)))
+            return res
+
+    n = c["n"]
+    net = Network(name="net")
+    nodes = []
+    for i in range(n):
+        owner = [None]
+        kw = dict(phase1_quorum=c["q1"], phase2_quorum=c["q2"]) if c["flex"] else {}
+        # FlexiblePaxosNode validates Q1+Q2>N against its peer list: give it the final size through set_peers below
+        if c["flex"]:
+            nd = RecNode.__new__(RecNode)
+            owner[0] = nd
+            nd._c12_applied, nd._c12_futs = [], []
+            base.__init__(nd, name=mnm(i), network=net, peers=[object()] * 0, state_machine=SM(owner),
+                          heartbeat_interval=c["hb_ms"] / 1000.0,
+                          phase1_quorum=max(c["q1"], 1), phase2_quorum=max(c["q2"], 1)) if c["q1"] + c["q2"] > 1 else None
+        else:
+            nd = RecNode.__new__(RecNode)
+            owner[0] = nd
+            nd._c12_applied, nd._c12_futs = [], []
+            base.__init__(nd, name=mnm(i), network=net, state_machine=SM(owner), heartbeat_interval=c["hb_ms"] / 1000.0)
+        nodes.append(nd)
+    for nd in nodes:
+        nd.set_peers(nodes)
+    lat = Scripted()
+    for i in range(n):
+        for j in range(n):
+            if i != j:
+                net.add_link(nodes[i], nodes[j], NetworkLink(name=f"l{i}_{j}", latency=lat, egress=nodes[j]))
+    sim = Simulation(end_time=Instant.from_seconds(c["end_ms"] / 1000.0), entities=[net, *nodes])
+
+    def mk(op):
+        _, kind, i, cmd = op
+
+        def fn(event):
+            nd = nodes[i]
+            if kind == "start":
+                evs = nd.start()
+                trace.append(dict(node=i, inp=["Start"], outs=[m_out(e, prefix) for e in evs], st=msnap(nd, nd._c12_futs)))
+                return evs
+            f = nd.submit({"op": "set", "key": "k", "value": cmd})
+            nd._c12_futs.append(f)
+            trace.append(dict(node=i, inp=["Submit", cmd], outs=[], st=msnap(nd, nd._c12_futs)))
+            return []
+        return fn
+
+    for k, op in enumerate(c["ops"]):
+        sim.schedule(Event.once(time=Instant.from_seconds(op[0] / 1000.0), event_type=f"op{k}", fn=mk(op)))
+    for k, (t, ga, gb, heal) in enumerate(c.get("parts", [])):
+        def cut(event, ga=ga, gb=gb):
+            net.partition([nodes[a] for a in ga], [nodes[b] for b in gb])
+
+        def heal_fn(event):
+            net.heal_partition()
+        sim.schedule(Event.once(time=Instant.from_seconds(t / 1000.0), event_type=f"Cut{k}", fn=cut))
+        sim.schedule(Event.once(time=Instant.from_seconds(heal / 1000.0), event_type=f"Heal{k}", fn=heal_fn))
+    _, verdict = run_sim_bounded(sim, max_events=100000, wall_s=20.0)
+    return dict(trace=trace, final=[msnap(nd, nd._c12_futs) for nd in nodes], verdict=verdict)
+
+
+def oracle_multi(c, obs):
+    if obs["verdict"] != "ok":
+        return [dict(clause="run ends", verdict=obs["verdict"])]
+    out = []
+    submitted = {op[3] for op in c["ops"] if op[1] == "submit"}
+    comp = "flexible_paxos" if c["flex"] else "multi_paxos"
+    # what each node has reported as decided for each slot, after every handled event
+    reported = {}     # (node, slot) -> command, first report
+    by_slot = {}      # slot -> {command: node}
+    for k, s in enumerate(obs["trace"]):
+        st, i = s["st"], s["node"]
+        for slot in range(1, st["commit"] + 1):
+            if slot > len(st["log"]):
+                continue
+            cmdv = st["log"][slot - 1][1]
+            if (i, slot) in reported and reported[(i, slot)] != cmdv:
+                out.append(dict(clause="a reported decision never changes", mechanism="slot-overwritten", component=comp,
+                                node=i, slot=slot, was=reported[(i, slot)], now=cmdv, step=k,
+                                what=f"{comp}: the command a node reports as committed for a slot changed"))
+            reported.setdefault((i, slot), cmdv)
+            by_slot.setdefault(slot, {}).setdefault(cmdv, i)
+            if cmdv not in submitted:
+                out.append(dict(clause="decided value was proposed by some client", node=i, slot=slot, value=cmdv))
+        # applied strictly in index order without gaps
+        if [a[0] for a in st["app"]] != list(range(1, len(st["app"]) + 1)) or st["applied"] != len(st["app"]):
+            out.append(dict(clause="commands are applied in slot order without gaps", node=i, step=k, app=st["app"], applied=st["applied"]))
+    for slot, m in by_slot.items():
+        if len(m) > 1:
+            out.append(dict(clause="any two nodes that report a decided value for the same slot report the same value",
+                            mechanism="slot-disagreement", component=comp, slot=slot, values={str(v): n for v, n in m.items()},
+                            what=f"{comp}: two nodes report different committed commands for the same slot"))
+    if c.get("fault_free") and not c["flex"]:
+        prev = {}
+        for s in obs["trace"]:
+            i = s["node"]
+            if s["inp"][0] == "Heartbeat" and s["inp"][4] and prev.get(i) and not s["st"]["isl"]:
+                out.append(dict(clause="a command submitted to an established leader is eventually decided and applied at every node",
+                                mechanism="own-tick-demotes", component=comp, node=i,
+                                what="multi_paxos: the established leader steps down when it handles its own heartbeat tick"))
+                break
+            prev[i] = s["st"]["isl"]
+    if c.get("fault_free"):
+        # a command submitted to an established leader is eventually decided and applied at every node
+        established = None
+        for s in obs["trace"]:
+            if s["st"]["isl"] and established is None:
+                established = s["node"]
+        late = [op for op in c["ops"] if op[1] == "submit" and op[0] >= 60 and op[2] == established]
+        for op in late:
+            if not all(any(a[1] == op[3] for a in f["app"]) for f in obs["final"]):
+                out.append(dict(clause="a command submitted to an established leader is eventually decided and applied at every node",
+                                mechanism="submit-not-replicated", component=comp, command=op[3],
+                                what=f"{comp}: submit() on an established leader appends to the local log and sends nothing; the command is never replicated"))
+                break
+    seen, res = set(), []
+    for f in out:
+        key = (f["clause"], f.get("mechanism"))
+        if key not in seen:
+            seen.add(key)
+            res.append(f)
+    return res
+
+
+def multi_mechanisms(c, obs):
+    """Mechanism predicates evaluated on the recorded trace (inputs and post-states of the handlers)."""
+    loglen = {}
+    led = set()
+    misplaced = False
+    for s in obs["trace"]:
+        i, st = s["node"], s["st"]
+        if s["inp"][0] == "Accept" and s["outs"] and s["outs"][0][0] == "Accepted":
+            if s["inp"][4] > loglen.get(i, 0) + 1:
+                misplaced = True       # entry for slot k appended at index len+1 < k
+        loglen[i] = len(st["log"])
+        if st["isl"]:
+            led.add((tuple(st["bal"]), i))
+    return dict(takeover=len(led) > 1, misplaced=misplaced)
+
+
+def attribute_multi(c, obs, f):
+    m = f.get("mechanism")
+    if m in ("slot-disagreement", "slot-overwritten"):
+        mech = multi_mechanisms(c, obs)
+        if mech["takeover"]:
+            return "C12-mpaxos-takeover-overwrites-slot"
+        if mech["misplaced"]:
+            return "C12-mpaxos-accept-appended-at-wrong-slot"
+        return None
+    if m == "submit-not-replicated":
+        return "C12-mpaxos-submit-not-replicated"
+    if m == "own-tick-demotes" and not c["flex"]:
+        return "C12-multipaxos-own-tick-demotes-leader"
+    return None
+
+
+def encode_multi(c, obs):
+    def zz(l):
+        return [Ctor("ZZ", a, b) for a, b in l]
+
+    def ein(i):
+        k = i[0]
+        if k == "Start":
+            return Raw("MStart")
+        if k == "Submit":
+            return Ctor("MSubmit", i[1])
+        if k == "Heartbeat":
+            return Ctor("MHeartbeat", i[1], i[2], i[3], bool(i[4]))
+        return Ctor("M" + k, *i[1:])
+
+    def eout(o):
+        return Ctor("OM" + o[0], *o[1:])
+
+    def est(st):
+        return Ctor("mkMO", zz(st["log"]), st["commit"], st["applied"], Ctor("ZZ", *st["bal"]),
+                    None if st["leader"] is None else Ctor("SZ", st["leader"]), bool(st["isl"]),
+                    zz(st["acks"]), zz(st["pend"]), zz(st["p1"]), zz(st["futs"]), zz(st["res"]), zz(st["app"]))
+    steps = [Ctor("MRS", s["node"], ein(s["inp"]), [eout(o) for o in s["outs"]], est(s["st"])) for s in obs["trace"]]
+    return "(" + ", ".join([term(c["n"]), term(c["q1"]), term(c["q2"]), term(bool(c["flex"])), term(steps)]) + ")"
+
+
 # --------------------------------------------------------------------------- families
 def describe_paxos(c):
     return f"paxos n={c['n']} {c.get('mode', 'corpus')} props={len(c['proposals'])}"
@@ -506,14 +879,18 @@ def attribute_paxos(c, o, f):
 
 FAMILIES = [
     Family("paxos", IMPORTS, "ok_paxos", "Z * list rec_step", gen_paxos, run_paxos, encode_paxos, oracle_paxos,
-           nontrivial_paxos, attribute_paxos, parallel=True, describe=describe_paxos),
+           nontrivial_paxos, attribute_paxos, describe=describe_paxos),
     Family("lock", "From HS Require Import Base.Prelude C12.Model C12.LockModel.", "ok_lock", "Z * list (lop * lres * lobs)",
            gen_lock, run_lock, encode_lock, oracle_lock,
-           lambda c, o: any(s["st"]["tw"] > 0 for s in o["trace"]), parallel=True,
+           lambda c, o: any(s["st"]["tw"] > 0 for s in o["trace"]),
            describe=lambda c: f"lock maxw={c['maxw']} lease={c['lease_ms']}"),
+    Family("multi", "From HS Require Import Base.Prelude C12.Model C12.MultiModel.", "ok_multi", "Z * Z * Z * bool * list mrec",
+           gen_multi, run_multi, encode_multi, oracle_multi,
+           lambda c, o: sum(1 for s in o["trace"] if s["inp"][0] == "Start") > 1 or any(s["inp"][0] == "Nack" for s in o["trace"]),
+           attribute_multi, describe=lambda c: f"{'flex' if c['flex'] else 'multi'} n={c['n']} q=({c['q1']},{c['q2']}) {c['mode']}"),
 ]
 
-COQ_FILES = ["C12/Model.v", "C12/PaxosNode.v", "C12/PaxosSys.v", "C12/LockModel.v", "C12/Lock.v", "C12/Props.v"]
+COQ_FILES = ["C12/Model.v", "C12/PaxosNode.v", "C12/PaxosSys.v", "C12/LockModel.v", "C12/Lock.v", "C12/MultiModel.v", "C12/Multi.v", "C12/Props.v"]
 
 TRUSTED = [
     "Coq 8.16.1 kernel (coqc, vm_compute for case evaluation); no native_compute; no axioms",
@@ -524,19 +901,49 @@ TRUSTED = [
 ]
 
 
+class _CtxProxy:
+    """Per-job view of the check context with its own PRNG, so that families can run
+    concurrently (each job = one coqc process) and still be reproducible from VERIF_SEED."""
+
+    def __init__(self, ctx, seed):
+        import random
+        object.__setattr__(self, "_ctx", ctx)
+        object.__setattr__(self, "rng", random.Random(seed))
+
+    def __getattr__(self, k):
+        return getattr(self._ctx, k)
+
+
+def run_jobs(ctx, jobs, chunk, workers=6):
+    """jobs: [(family, n)].  Each family is split into chunks of at most `chunk` cases; the
+    first chunk keeps the family name (and therefore runs the corpus), the others get a suffix."""
+    import dataclasses
+    from concurrent.futures import ThreadPoolExecutor
+    todo = []
+    for fam, n in jobs:
+        k = 0
+        while n > 0:
+            m = min(chunk, n)
+            f = fam if k == 0 else dataclasses.replace(fam, name=f"{fam.name}_{k}")
+            todo.append((f, m, ctx.rng.randrange(1 << 30)))
+            n -= m
+            k += 1
+    with ThreadPoolExecutor(max_workers=workers) as ex:
+        return list(ex.map(lambda j: run_family(_CtxProxy(ctx, j[2]), j[0], j[1]), todo))
+
+
 def run(ctx):
     ctx.prove(COQ_FILES, allowed_axioms=(), trusted_base=TRUSTED)
-    stats = []
     fams = {f.name: f for f in FAMILIES}
-    stats.append(run_family(ctx, fams["paxos"], ctx.n(250, 6000)))
-    stats.append(run_family(ctx, fams["lock"], ctx.n(100, 1500)))
+    stats = run_jobs(ctx, [(fams["paxos"], ctx.n(240, 6000)), (fams["lock"], ctx.n(80, 1500)),
+                           (fams["multi"], ctx.n(120, 3000))], ctx.n(40, 250))
     merge_stats(ctx, stats, "random schedules (per-message delays, loss, partitions, retry jitter) over 3-5 nodes and 1-4 proposals; "
                 "non-trivial = competing ballots (a nack/retry occurred or more than one proposal); distinct by JSON of the input")
     ctx.finish_obligations()
 
 
 def replay(data):
-    fam = {f.name: f for f in FAMILIES}[data["detail"]["family"]]
+    fam = {f.name: f for f in FAMILIES}[data["detail"]["family"].split("_")[0]]
     c = data["detail"]["case"]
     obs = fam.impl(c)
     fails = fam.oracle(c, obs)
